@@ -409,6 +409,7 @@ package kv
 //@ modifies nothing
 
 //@ ghostfun nbKey(int64) string
+//@ axiom forall a int64, b int64 :: nbKey(a) == nbKey(b) ==> a == b
 
 //@ func notificationKey
 //@ trusted
